@@ -229,7 +229,7 @@ impl World {
     }
 }
 
-fn build(kinds: [bool; 2], fees: (u128, u128, u128), n: usize, a: u128, bb: u128, ss: Option<(u64, u8, u8)>, dn: usize) -> Result<Option<World>, String> {
+fn build(kinds: [bool; 2], fees: (u128, u128, u128), n: usize, a: u128, bb: u128, ss: Option<(u64, u8, u8)>, dn: usize, sp: usize) -> Result<Option<World>, String> {
     #[allow(non_snake_case)]
     let DENOMS: [&'static str; 2] = DENOM_SETS[dn % DENOM_SETS.len()];
     let owner = Addr::unchecked("owner");
@@ -279,11 +279,22 @@ fn build(kinds: [bool; 2], fees: (u128, u128, u128), n: usize, a: u128, bb: u128
             tokens[k] = Some(t);
         }
     }
+    // `sp=<n>`: how the DEPLOYER spells the cw20 assets' addresses in the InstantiateMsg (addresses are
+    // case-insensitive: `addr_canonicalize` accepts any casing and the pair stores the canonical form, so the
+    // pool must behave exactly the same; the model does not look at names): 0 as the chain prints them,
+    // 1 upper case, 2 mixed case (every other letter)
+    let spell = |a: String| -> String {
+        match sp % 3 {
+            1 => a.to_uppercase(),
+            2 => a.chars().enumerate().map(|(i, c)| if i % 2 == 0 { c.to_ascii_uppercase() } else { c }).collect(),
+            _ => a,
+        }
+    };
     let info = |k: usize| -> AssetInfo {
         if kinds[k] {
             AssetInfo::NativeToken { denom: DENOMS[k].into() }
         } else {
-            AssetInfo::Token { contract_addr: tokens[k].as_ref().unwrap().to_string() }
+            AssetInfo::Token { contract_addr: spell(tokens[k].as_ref().unwrap().to_string()) }
         }
     };
     let inst = {
@@ -428,7 +439,8 @@ impl PairEngine {
         self.nusers = n as usize;
         self.ubal = [a, bb];
         let dn = num("dn").unwrap_or(0) as usize;
-        match build([k0, k1], (pf, sf, bf), n as usize, a, bb, ss, dn) {
+        let sp = num("sp").unwrap_or(0) as usize;
+        match build([k0, k1], (pf, sf, bf), n as usize, a, bb, ss, dn, sp) {
             Ok(Some(w)) => {
                 let o = w.observe();
                 let s = w.show(&o);
@@ -1101,9 +1113,14 @@ impl PairEngine {
                 1 => (whole / (1 + rng.below(4) as u128)).max(1) * 10u128.pow(d1),
                 _ => whole * (1 + rng.below(4) as u128) * 10u128.pow(d1),
             };
-            return format!("init pair k0={k0} k1={k1} p={pf} s={sf} b={bf} n=4 a={a} bb={b2} curve=ss amp={amp} d0={d0} d1={d1} dn={}", rng.below(DENOM_SETS.len() as u64));
+            let dn = rng.below(DENOM_SETS.len() as u64);
+            let sp = if k0 == "c" || k1 == "c" { *rng.pick(&[0u64, 0, 1, 2]) } else { 0 };
+            return format!("init pair k0={k0} k1={k1} p={pf} s={sf} b={bf} n=4 a={a} bb={b2} curve=ss amp={amp} d0={d0} d1={d1} dn={dn} sp={sp}");
         }
-        format!("init pair k0={k0} k1={k1} p={pf} s={sf} b={bf} n=4 a={a} bb={b2} dn={}", rng.below(DENOM_SETS.len() as u64))
+        let dn = rng.below(DENOM_SETS.len() as u64);
+        // one cw20 world in two is deployed with its token addresses spelled in upper / mixed case
+        let sp = if k0 == "c" || k1 == "c" { *rng.pick(&[0u64, 0, 1, 2]) } else { 0 };
+        format!("init pair k0={k0} k1={k1} p={pf} s={sf} b={bf} n=4 a={a} bb={b2} dn={dn} sp={sp}")
     }
     fn gen_ms(rng: &mut Rng) -> String {
         match rng.below(20) {
